@@ -236,6 +236,17 @@ func F2(thorough bool) []*Program {
 				fn("NewT0", []string{"*T1", "*T2"}, []string{"*T0"}, false),
 			}}}})
 	}
+	// both results of one provider fan out to consumers in other goroutines
+	for _, e := range []bool{false, true} {
+		add(&Program{Desc: fmt.Sprintf("multi-result fan-out err=%v", e), Types: typeNames(6), Decls: []Decl{{
+			Name: "InitP", Request: "*T0", Provs: []Prov{
+				fn("NewT1T2", nil, []string{"*T1", "*T2"}, e),
+				fn("NewT3", []string{"*T1"}, []string{"*T3"}, false),
+				fn("NewT4", []string{"*T2"}, []string{"*T4"}, false),
+				fn("NewT5", []string{"*T1", "*T2"}, []string{"*T5"}, e),
+				fn("NewT0", []string{"*T3", "*T4", "*T5"}, []string{"*T0"}, false),
+			}}}})
+	}
 	// Struct expansion whose fields are consumed in other goroutines; the struct's provider may fail
 	for _, e := range []bool{false, true} {
 		add(&Program{Desc: fmt.Sprintf("struct-across-goroutines err=%v", e), Types: typeNames(5), Structs: map[string][]string{"S0": {"F0 *T1", "F1 *T2"}}, Decls: []Decl{{
